@@ -97,6 +97,7 @@ class RegEngine(Engine):
           cs.append([['reg', dict(base, api=api, shape=shape, scoped=scoped, name='cobj' if shape == 'callable_obj' else None)]])
     cs.append([['reg', dict(base, name='x', module='m')], ['reg', dict(base, shape='WithNew', name='x', module='m')],
                ['enter_interactive'], ['reg', dict(base, shape='WithNew', name='x', module='m')], ['exit_interactive'],
+               ['interactive_block', True], ['reg', dict(base, shape='Slotted', name='x', module='m')],
                ['reg', dict(base, shape='fn', name='x', module='m')], ['lock'], ['reg', dict(base, shape='fn', name='y')], ['unlock'],
                ['reg', dict(base, shape='fn', name='bad-name')], ['reg', dict(base, shape='fn', name='ok', module='bad module')],
                ['reg', dict(base, shape='fn', name='z', allow=['a'], deny=['b'])], ['reg', dict(base, shape='fn', name='z', allow=['nope'])],
@@ -124,6 +125,8 @@ class RegEngine(Engine):
         if req['shape'] == 'callable_obj' and req['name'] is None:
           req['name'] = 'cobj'       # a callable object has no __name__: the API requires an explicit name
         ops.append(['reg', req])
+      elif r < 0.79:
+        ops.append(['interactive_block', rng.random() < 0.6])     # with gin.config.interactive_mode(): ... (maybe raising)
       elif r < 0.82:
         ops.append(['enter_interactive'])
       elif r < 0.89:
@@ -172,7 +175,7 @@ class RegEngine(Engine):
         out.append('(RReg %s)' % self.request_coq(mod, op[1], ids))
       else:
         out.append({'enter_interactive': 'REnterInteractive', 'exit_interactive': 'RExitInteractive', 'lock': 'RLock',
-                    'unlock': 'RUnlock'}[op[0]])
+                    'unlock': 'RUnlock', 'interactive_block': 'RExitInteractive'}[op[0]])
     return C.clist(out) if out else '(@nil rop)'
 
   def impl(self, case):
@@ -186,7 +189,14 @@ class RegEngine(Engine):
     mutated = set()     # classes gin.configurable has (by design) wrapped in place
     for op in case:
       if op[0] != 'reg':
-        if op[0] == 'enter_interactive':
+        if op[0] == 'interactive_block':
+          try:
+            with cfg.interactive_mode():
+              if op[1]:
+                raise KeyError('boom')
+          except KeyError:
+            pass
+        elif op[0] == 'enter_interactive':
           cfg.enter_interactive_mode()
         elif op[0] == 'exit_interactive':
           cfg.exit_interactive_mode()
